@@ -235,6 +235,9 @@ def run_property(prop, tier, seed, only=None, verbose=True):
     for e in kfs:
         if e.get("status") == "fixed":
             continue
+        if os.environ.get("VERIF_DEBUG_IGNORE_KF") == "1":
+            print("debug: known finding %s ignored (VERIF_DEBUG_IGNORE_KF=1) - expect it to be reported" % e["id"])
+            continue
         if finding_active(e):
             active.append(e)
             print("KNOWN-FINDING: property=%s %s [%s]" % (prop, e["what"], e["id"]), flush=True)
